@@ -183,6 +183,7 @@ def h_elemental(d: bool):
         counts = dict((i, R('n%d' % i)) for i in range(ncorr))
         est = gd.ThermochemGroupAdditive(_Lib(name, corrs), counts)
         T = R('T')
+        Rj = r_table()['J/mol/K']
         base_s = 0
         base_h = 0
         for i in range(ncorr):
@@ -197,10 +198,19 @@ def h_elemental(d: bool):
              (est.get_SoR(T), base_s),
              (est.get_SoR(T, S_elements=False), base_s),
              (est.get_GoRT(T, S_elements=True), base_h - (base_s - want_sel)),
-             (est.get_GoRT(T), base_h - base_s)],
+             (est.get_GoRT(T), base_h - base_s),
+             # the dimensional getters of the ESTIMATE class (it may override them), one energy unit
+             (est.get_G(T, 'J/mol', S_elements=True), (base_h - (base_s - want_sel)) * T * Rj),
+             (est.get_G(T, 'J/mol'), (base_h - base_s) * T * Rj),
+             (est.get_S(T, 'J/mol/K', S_elements=True), (base_s - want_sel) * Rj),
+             (est.get_S(T, 'J/mol/K'), base_s * Rj),
+             (est.get_H(T, 'J/mol'), base_h * T * Rj)],
             ['S/R(S_elements) != S/R - sum of elemental entropies over all atoms incl. H',
              'S/R without the elemental reference changed', 'S/R with S_elements=False changed',
-             'G/RT(S_elements) != H/RT - (S/R - elemental)', 'G/RT != H/RT - S/R'])
+             'G/RT(S_elements) != H/RT - (S/R - elemental)', 'G/RT != H/RT - S/R',
+             'estimate: G(T,u,S_elements) != H(T,u) - T*S(T,u,S_elements)', 'estimate: G(T,u) != H(T,u) - T*S(T,u)',
+             'estimate: S(T,u,S_elements) != (S/R - elemental)*R(u)', 'estimate: S(T,u) != (S/R)*R(u)',
+             'estimate: H(T,u) != (H/RT)*T*R(u)'])
     except Exception as e:
         ok, status = False, 'raised:' + type(e).__name__
     finally:
